@@ -416,7 +416,7 @@ def c03_json_case(args):
             m = llsym.Machine(mod)
             install_natives(m)
             cxxnatives.install(m)
-            m.step_budget = 10 ** 12
+            m.step_budget = 8_000_000      # ~100x the largest legitimate run: a loop that does not end is an EngineLimit
             argp = m.alloc(len(area) + 16)
             inp = m.alloc(len(canon) + 16)
             outp = m.alloc(len(canon) + 256)
